@@ -26,3 +26,7 @@ func HInt64RoundTrip() {
 	vassert(err == nil, "ReadInt64 failed")
 	vassert(y == x, "round trip")
 }
+
+var verifHarnesses = map[string]func(){
+	"HInt64RoundTrip": HInt64RoundTrip,
+}
